@@ -643,6 +643,9 @@ func c03Shrink(ss *c03Servers, c c03Case, sym string) c03Case {
 			changed = try(cand) || changed
 		}
 		for _, pp := range []*[]string{&c.P1, &c.P2} {
+			if pp == &c.P2 && same(c.P2, canon.P2) {
+				continue // the plain second handler stays as it is
+			}
 			for i := 0; i < len(*pp); i++ {
 				saved := *pp
 				cut := append(append([]string(nil), saved[:i]...), saved[i+1:]...)
@@ -762,14 +765,211 @@ func c03Sig(sym string, c c03Case) string {
 	return sym + "[" + strings.Join(parts, ";") + "]"
 }
 
+// c03MinFeatures lists what a shrunk case consists of; c03CaseFeatures lists everything a case contains (in either
+// handler position). A case that contains all features of an already known shrunk case with the same symptom is put
+// into that class without being shrunk again.
+func c03MinFeatures(c c03Case) []string {
+	canon := c03Canonical()
+	var f []string
+	for _, o := range c.P1 {
+		f = append(f, "op:"+o)
+	}
+	if strings.Join(c.P2, ",") != strings.Join(canon.P2, ",") {
+		for _, o := range c.P2 {
+			f = append(f, "op2:"+o)
+		}
+	}
+	if c.M1 != canon.M1 {
+		f = append(f, "m:"+c.M1)
+	}
+	if c.M2 != canon.M2 {
+		f = append(f, "m2:"+c.M2)
+	}
+	if c.V1 != canon.V1 {
+		f = append(f, "v:"+c.V1)
+	}
+	if c.V2 != canon.V2 {
+		f = append(f, "v2:"+c.V2)
+	}
+	if c.Buf != canon.Buf {
+		f = append(f, "wbuf")
+	}
+	if c.Gzip {
+		f = append(f, "gzip")
+	}
+	if c.Pipe {
+		f = append(f, "pipe")
+	}
+	if c.L != canon.L {
+		f = append(f, fmt.Sprintf("L:%d", c.L))
+	}
+	if c.RK != canon.RK {
+		f = append(f, "rk:"+c.RK)
+	}
+	return f
+}
+
+// c03Src says where in a case a feature comes from.
+type c03Src struct {
+	where int // 1: P1[idx], 2: P2[idx], 3: environment slot env
+	idx   int
+	env   string
+}
+
+// c03Family: the op itself plus everything c03Shrink may replace it with (transitively).
+func c03Family(op string) []string {
+	out := []string{op}
+	for i := 0; i < len(out); i++ {
+		for _, alt := range c03Simpler[out[i]] {
+			dup := false
+			for _, o := range out {
+				dup = dup || o == alt
+			}
+			if !dup {
+				out = append(out, alt)
+			}
+		}
+	}
+	return out
+}
+
+func c03CaseFeatures(c c03Case) map[string][]c03Src {
+	f := map[string][]c03Src{}
+	add := func(k string, s c03Src) { f[k] = append(f[k], s) }
+	for i, o := range c.P1 {
+		for _, x := range c03Family(o) {
+			add("op:"+x, c03Src{1, i, ""})
+		}
+	}
+	for i, o := range c.P2 {
+		for _, x := range c03Family(o) {
+			add("op:"+x, c03Src{2, i, ""})
+			add("op2:"+x, c03Src{2, i, ""})
+		}
+	}
+	add("m:"+c.M1, c03Src{3, 0, "M1"})
+	add("m:"+c.M2, c03Src{3, 0, "M2"})
+	add("m2:"+c.M2, c03Src{3, 0, "M2"})
+	if c.M1 == "HEAD" { // shrinking turns HEAD into the bodyless status
+		add("op:status-204", c03Src{3, 0, "M1"})
+	}
+	if c.M2 == "HEAD" {
+		add("op:status-204", c03Src{3, 0, "M2"})
+		add("op2:status-204", c03Src{3, 0, "M2"})
+	}
+	add("v:"+c.V1, c03Src{3, 0, "V1"})
+	add("v:"+c.V2, c03Src{3, 0, "V2"})
+	add("v2:"+c.V2, c03Src{3, 0, "V2"})
+	if c.Buf != 4096 {
+		add("wbuf", c03Src{3, 0, "Buf"})
+	}
+	if c.Gzip {
+		add("gzip", c03Src{3, 0, "Gzip"})
+	}
+	if c.Pipe {
+		add("pipe", c03Src{3, 0, "Pipe"})
+	}
+	add(fmt.Sprintf("L:%d", c.L), c03Src{3, 0, "L"})
+	add("rk:"+c.RK, c03Src{3, 0, "RK"})
+	return f
+}
+
+// c03Without removes from c everything the given features come from.
+func c03Without(c c03Case, cf map[string][]c03Src, feats []string) c03Case {
+	canon := c03Canonical()
+	del1, del2 := map[int]bool{}, map[int]bool{}
+	out := c
+	for _, ft := range feats {
+		for _, s := range cf[ft] {
+			switch s.where {
+			case 1:
+				del1[s.idx] = true
+			case 2:
+				del2[s.idx] = true
+			case 3:
+				switch s.env {
+				case "M1":
+					out.M1 = canon.M1
+				case "M2":
+					out.M2 = canon.M2
+				case "V1":
+					out.V1 = canon.V1
+				case "V2":
+					out.V2 = canon.V2
+				case "Buf":
+					out.Buf = canon.Buf
+				case "Gzip":
+					out.Gzip = false
+				case "Pipe":
+					out.Pipe = false
+				case "L":
+					out.L = canon.L
+				case "RK":
+					out.RK = canon.RK
+				case "P2":
+					out.P2 = canon.P2
+				}
+			}
+		}
+	}
+	out.P1, out.P2 = nil, nil
+	for i, o := range c.P1 {
+		if !del1[i] {
+			out.P1 = append(out.P1, o)
+		}
+	}
+	for i, o := range c.P2 {
+		if !del2[i] {
+			out.P2 = append(out.P2, o)
+		}
+	}
+	return out
+}
+
+type c03Known struct {
+	feats []string
+	sig   string
+}
+
+const c03MaxShrinks = 4000
+
 type c03Reporter struct {
-	r    *vrt.R
-	memo sync.Map // coarse key -> sig
-	mu   sync.Mutex
-	terr string // first machinery failure (reported from the test goroutine after the enumeration)
+	r       *vrt.R
+	mu      sync.Mutex
+	terr    string                // first machinery failure (reported from the test goroutine after the enumeration)
+	known   map[string][]c03Known // symptom -> shrunk classes seen so far
+	shrinks int
 }
 
 func (rp *c03Reporter) toolErr() string { rp.mu.Lock(); defer rp.mu.Unlock(); return rp.terr }
+
+// lookup finds a known class of the same symptom whose features the case contains and which explains the failure:
+// with those features taken out the symptom is gone.
+func (rp *c03Reporter) lookup(ss *c03Servers, sym string, c c03Case) string {
+	rp.mu.Lock()
+	ks := append([]c03Known(nil), rp.known[sym]...)
+	rp.mu.Unlock()
+	if len(ks) == 0 {
+		return ""
+	}
+	cf := c03CaseFeatures(c)
+next:
+	for _, k := range ks {
+		if len(k.feats) == 0 {
+			return k.sig // the canonical case itself fails
+		}
+		for _, f := range k.feats {
+			if len(cf[f]) == 0 {
+				continue next
+			}
+		}
+		cand := c03Without(c, cf, k.feats)
+		if cand.key() != c.key() && !c03Has(c03Exec(ss, &cand), sym) {
+			return k.sig
+		}
+	}
+	return ""
+}
 
 func (rp *c03Reporter) report(ss *c03Servers, c c03Case, res *c03Result) {
 	if res.toolErr != "" {
@@ -786,29 +986,39 @@ func (rp *c03Reporter) report(ss *c03Servers, c c03Case, res *c03Result) {
 			continue
 		}
 		seen[f.sym] = true
-		// coarse key: symptom + set of op names + environment; equal keys shrink to the same class
-		ops := append(append([]string(nil), c.P1...), "|")
-		ops = append(ops, c.P2...)
-		ck := f.sym + "\x00" + strings.Join(ops, ",") + fmt.Sprintf("\x00%s%s%s%s%d%v%v%d%s", c.M1, c.M2, c.V1, c.V2, c.Buf, c.Gzip, c.Pipe, c.L, c.RK)
-		var sig string
-		var min c03Case
-		if v, ok := rp.memo.Load(ck); ok {
-			sig = v.(string)
-			min = c
-		} else {
-			min = c03Shrink(ss, c, f.sym)
-			sig = c03Sig(f.sym, min)
-			rp.memo.Store(ck, sig)
+		if sig := rp.lookup(ss, f.sym, c); sig != "" {
+			rp.r.Violation(sig, f.what, c)
+			continue
 		}
+		rp.mu.Lock()
+		rp.shrinks++
+		over := rp.shrinks > c03MaxShrinks
+		rp.mu.Unlock()
+		if over {
+			// only reached when almost everything fails (a mutant): the symptom alone is the class
+			rp.r.Violation(f.sym+"[not-shrunk:more-than-4000-distinct-failing-shapes]", f.what, c)
+			continue
+		}
+		min := c03Shrink(ss, c, f.sym)
+		sig := c03Sig(f.sym, min)
 		what := f.what
-		if min.key() != c.key() {
-			// describe the shrunk case, which is the artefact
-			for _, g := range c03Exec(ss, &min).finds {
-				if g.sym == f.sym {
-					what = g.what
-				}
+		for _, g := range c03Exec(ss, &min).finds {
+			if g.sym == f.sym {
+				what = g.what
 			}
 		}
+		rp.mu.Lock()
+		if rp.known == nil {
+			rp.known = map[string][]c03Known{}
+		}
+		dup := false
+		for _, k := range rp.known[f.sym] {
+			dup = dup || k.sig == sig
+		}
+		if !dup {
+			rp.known[f.sym] = append(rp.known[f.sym], c03Known{c03MinFeatures(min), sig})
+		}
+		rp.mu.Unlock()
 		rp.r.Violation(sig, what, min)
 	}
 }
@@ -984,6 +1194,10 @@ func TestVerif_C03(t *testing.T) {
 		r.Add("cases_with_closing_response", cClose)
 		r.Add("cases_with_two_parsed_responses", cTwo)
 	})
+	r.Set("failing_cases_shrunk", rp.shrinks)
+	if rp.shrinks > c03MaxShrinks {
+		r.NotExhaustive("more than 4000 distinct failing shapes: later ones are classed by symptom only")
+	}
 	if e := rp.toolErr(); e != "" {
 		r.ToolError("%s", e)
 	}
